@@ -6,6 +6,7 @@ import IkeModel.Generated.Gen_encr
 import IkeModel.Generated.Gen_integ
 import IkeModel.Generated.Gen_prf
 import IkeModel.Generated.Gen_esn
+import IkeModel.Generated.Gen_dh
 
 /-! Driver for the GENERATED model (`IkeModel/Generated/Gen_message.lean`, written by
 `tools/go2lean` from /repo's current source): the same line protocol as `Driver.lean`, the same
@@ -207,11 +208,37 @@ def gDectrOp (ts : Array String) : String :=
         | .nil_ => Res.err
         | _ => Gen.prf.PRFType.TransformID a >>= fun i => Gen.prf.PRFType.GetKeyLength a >>= fun k =>
                  Gen.prf.PRFType.GetOutputLength a >>= fun o => Res.ok (gOkAlg i k o)) id
+    else if kind == "dh" then
+      gResOr (Gen.dh.init_ {} >>= fun G => Gen.dh.DecodeTransform G t >>= fun a =>
+        match a with
+        | .nil_ => Res.err
+        | _ => Gen.dh.DHType.TransformID a >>= fun i => Gen.dh.DHType.GetPublicValue a 0 >>= fun pv => Res.ok (gOkAlg i pv.length 0)) id
     else if kind == "esn" then
       gResOr (Gen.esn.init_ {} >>= fun G => Gen.esn.DecodeTransform G t >>= fun a =>
         Gen.esn.ESN.TransformID a >>= fun i => Gen.esn.ESN.GetNeedESN a >>= fun n => Res.ok (gOkAlg i (if n then 1 else 0) 0)) id
     else "unsupported"
   | _, _, _, _, _, _, _, _ => "bad-args"
+
+/-- the group object `dh.StrToType(<name of group 2 | 14>)` of the generated registry -/
+def gDhGroup (ts : Array String) (o : Nat) : Option Gen.dh.DHType :=
+  let name : Option Bytes :=
+    match ts[o]? with
+    | some "0" => some "DH_1024_BIT_MODP".toUTF8.toList
+    | some "1" => some "DH_2048_BIT_MODP".toUTF8.toList
+    | _ => none
+  match name, Gen.dh.init_ {} with
+  | some n, .ok G => match Gen.dh.StrToType G n with | .ok (.nil_) => none | .ok g => some g | _ => none
+  | _, _ => none
+
+def gDhPubOp (ts : Array String) : String :=
+  match gDhGroup ts 1, (ts[2]?).bind parseX with
+  | some g, some x => gresStr xhex (Gen.dh.DHType.GetPublicValue g (beNat x))
+  | _, _ => "bad-args"
+
+def gDhSharedOp (ts : Array String) : String :=
+  match gDhGroup ts 1, (ts[2]?).bind parseX, (ts[3]?).bind parseX with
+  | some g, some x, some y => gresStr xhex (Gen.dh.DHType.GetSharedKey g (beNat x) (beNat y))
+  | _, _, _ => "bad-args"
 
 def gDecEapOp (name : String) (b : Bytes) : Option String :=
   if name == "eap" then some (gresStr (fun e => (sxEap e).toStr) ((Gen.eap.EAP.Unmarshal {} b).map GenAbs.absEap))
@@ -271,6 +298,8 @@ def gHandle (line : String) : String :=
     else if op == "akaprf" then gAkaPrfOp ts
     else if op == "prfplus" then gPrfPlusOp ts
     else if op == "dectr" then gDectrOp ts
+    else if op == "dhpub" then gDhPubOp ts
+    else if op == "dhshared" then gDhSharedOp ts
     else if op == "reenc" then
       if h3 : ts.size = 3 then
         match parseX ts[2] with
